@@ -537,6 +537,53 @@ func (c *Cursor) Seek(seek []byte) ([]byte, []byte) {
 	return c.cur()
 }
 
+// Compact copies src into dst bucket by bucket in key order, committing whenever more than
+// txMaxSize bytes of keys and values have been written since the last commit (as bbolt's
+// Compact does; txMaxSize 0 = one transaction).
+func Compact(dst, src *DB, txMaxSize int64) error {
+	tx, err := dst.Begin(true)
+	if err != nil {
+		return err
+	}
+	defer func() {
+		if !tx.done {
+			_ = tx.Rollback()
+		}
+	}()
+	var size int64
+	err = src.View(func(stx *Tx) error {
+		for bi, name := range stx.root.names {
+			c := (&Bucket{tx: stx, data: stx.root.buckets[bi], name: name}).Cursor()
+			for k, v := c.First(); k != nil; k, v = c.Next() {
+				sz := int64(len(k) + len(v))
+				if size+sz > txMaxSize && txMaxSize != 0 {
+					if err := tx.Commit(); err != nil {
+						return err
+					}
+					tx, err = dst.Begin(true)
+					if err != nil {
+						return err
+					}
+					size = 0
+				}
+				size += sz
+				b, err := tx.CreateBucketIfNotExists([]byte(name))
+				if err != nil {
+					return err
+				}
+				if err := b.Put(k, v); err != nil {
+					return err
+				}
+			}
+		}
+		return nil
+	})
+	if err != nil {
+		return err
+	}
+	return tx.Commit()
+}
+
 // ---------------------------------------------------------------------------
 // back doors for harnesses (reached through the verif* runtime of the harness package)
 
